@@ -18,6 +18,14 @@ claimed = {
    text="For WriteHeader, writeVarInt, WriteBlock, Flush and Encode: every io.Writer.Write call is a trace event carrying its bytes and its error; the postconditions state that all events but the last succeeded, that a failing last event makes the call return a non-nil error wrapping that error (fmt.Errorf %w, transitively), and that a nil result means all writes were made. The bytes passed to each write do not depend on earlier results, so the accepted bytes are a prefix of the fault-free output. No-panic obligations of these functions are included.",
    ref="DESIGN.md section 5/C16",
    note="Assumed: the io.Writer contract (n <= len(p), err == nil => n == len(p)); fmt.Errorf wraps its %w arguments; wraps is transitive."),
+ "C07": dict(cat="proof", tech="contract-based deductive verification over a ghost input stream and a ghost event trace (loop invariants, callee contracts); io.ReadFull/ReadAtLeast and binary.ReadVarint/ReadUvarint verified from GOROOT source; z3/cvc5",
+   text="ReadFile, readFileHeader, readBytes, FileHeader.schema and the three decompress implementations are verified: wrong magic, missing schema, unknown codec, sync mismatch, snappy checksum mismatch or short block, and any decompressor error each force a non-nil error; a header without avro.codec selects the null codec; per block exactly the declared number of (zero, decode, callback) triples happens; a callback error is returned unchanged and is the last event. Holds for every input stream and every callback behaviour.",
+   ref="DESIGN.md section 5/C07",
+   note="Assumed: Reader is a well-behaved io.Reader/io.ByteReader over a fixed byte string; flate/snappy/crc32/bytes.Buffer contracts (a corrupt stream is reported through their error result); Schema.Codec's contract is trusted (build functions not yet under contract); the callback does not touch decoder state; bank buffers are private (assumed postconditions of Reset/ExtractResourceBank)."),
+ "C08": dict(cat="proof", tech="contract-based deductive verification over a ghost input stream with symbolic length (every cut position at once); stdlib stream functions verified from GOROOT source; z3/cvc5",
+   text="With the stream length symbolic, ReadFile returns nil only if the last stream access was a block-count read that found end-of-input before its first byte (zero bytes consumed since the loop head, position == length) and the preceding event, if any, is a complete sync-marker read; every other exit returns a non-nil error. ReadUvarint distinguishes clean EOF (no byte consumed) from mid-varint EOF; ReadFull reports short reads; callbacks only happen inside a block whose payload was completely read and decompressed.",
+   ref="DESIGN.md section 5/C08",
+   note="Same assumptions as C07. 'Loop head = block boundary' is structural (the loop head is reached only after the header or after a matching sync marker, which the loop invariant lastIsSync states)."),
 }
 reasons = {}
 allp = [json.loads(l)["id"] for l in open("/verif/properties.jsonl")]
